@@ -119,7 +119,8 @@ def execute(scn, L):
     sx = scn.get('stream_extras') or {}
     skw = {'prefix': sx.get('prefix', 0) if isinstance(sx.get('prefix', 0),
                                                       int) else 0,
-           'late_rewind': bool(sx.get('late_rewind'))}
+           'late_rewind': bool(sx.get('late_rewind')),
+           'extras': sx if isinstance(sx, dict) else None}
     w1 = World(scn, L)
     orig, end, exc = read_all(w1, intact, block_size=bs, stream=sk, buf=97,
                                actor='orig', **skw)
